@@ -75,6 +75,27 @@ class Contains(Relation):
         ans = reg.contains(pc)
         ctx.check((fp(reg), fp(pc)) == before,
                   f'{cls} | contains modifies the region or the coordinates')
+        # the same coordinate OBJECT, its arrays edited in place, asked again:
+        # the answers are those of a fresh coordinate with the current values
+        if (isinstance(pc.x, np.ndarray) and pc.x.ndim and pc.x.size
+                and pc.x.flags.writeable and pc.y.flags.writeable):
+            keep = (pc.x.copy(), pc.y.copy())
+            try:
+                pc.x[...] = pc.x + 3
+                pc.y[...] = pc.y - 2
+                moved = True
+            except (ValueError, TypeError):      # broadcast views etc.
+                moved = False
+            if moved:
+                again = np.asarray(reg.contains(pc))
+                fresh = np.asarray(reg.contains(PixCoord(pc.x.copy(),
+                                                         pc.y.copy())))
+                ctx.check(np.array_equal(again, fresh),
+                          f'{cls} | after an in-place edit of the query '
+                          'arrays the same coordinate object gets the answers '
+                          'of its old values',
+                          f'{int((again != fresh).sum())} of {again.size} differ')
+                pc.x[...], pc.y[...] = keep
         sig = f"{cls} include={ref._compound_meta(rs).get('include', 'absent') if cls == 'CompoundPixelRegion' else (rs.get('meta') or {}).get('include', 'absent')!r}"
         ctx.label(cls, 'layout:' + q['layout'], 'dtype:' + q['dtype'],
                   G.angle_family(rs), 'num:' + str(rs.get('num')))
